@@ -571,8 +571,14 @@ class DomainLowerer(FragmentTransformer, ValueTransformer, StatementTransformer)
         return domain.rst
 
     def on_fragment(self, fragment):
+        # A subfragment may define a domain that shadows one of the same name visible here; the statements
+        # of this fragment, which are lowered after its subfragments, must still refer to its own domains.
+        outer_domains = self.domains
         self.domains = fragment.domains
-        return super().on_fragment(fragment)
+        try:
+            return super().on_fragment(fragment)
+        finally:
+            self.domains = outer_domains
 
 
 class LHSMaskCollector:
